@@ -806,6 +806,19 @@ class Crate:
             hosts = more
         return out
 
+    def host_root(self, fn, view=None, _depth=0):
+        """key path of the hand-written function a body belongs to: the non-closure function it is nested in, or — when that function is a
+        helper that was spliced into exactly one function — that function's own host.  Lets a finding keep its site when the code
+        around it is wrapped into a new helper (plain or async) or a closure."""
+        view = view or fn.view
+        root = fn.root or fn.path
+        if _depth < 4:
+            hosts = [h for h in self.fns(view) if root in (h.j.get('inlined') or []) and (h.root or h.path) != root]
+            host_roots = set(self.host_root(h, view, _depth + 1) for h in hosts)
+            if len(host_roots) == 1:
+                return next(iter(host_roots))
+        return keypath(root)
+
     def by_exact(self, path, view='built'):
         for f in self.fns(view):
             if f.path == path:
